@@ -50,6 +50,7 @@ def check_c02(case, ctx):
     if not (all_untouched or all_equal):
         raise Violation("inputs:mixture", f"{kind} call={call}: passed-in objects are a mixture: touched={touched} equal-to-returned={equal_ret}")
     ctx.label("inputs:untouched" if all_untouched else "inputs:updated-in-place")
+    ctx.label("values:all-distinct" if case["meta"].get("distinct_values", True) else "values:identical-players-present")
 
     # (c) values: each slot holds the posterior of *that* player
     values = outcome_values(n, call)
@@ -93,17 +94,22 @@ def check_c02(case, ctx):
 
 @st.composite
 def cases(draw):
-    g = draw(gen.games(regimes=["generic", "generic", "targeted", "dyadic", "corner"],
+    distinct = draw(st.integers(0, 3)) > 0
+    g = draw(gen.games(regimes=["generic", "generic", "targeted", "dyadic", "corner"] if distinct else ["identical", "identical", "near_equal", "generic"],
                        order_shapes=("none", "none", "free", "free", "onetie", "all", "identity")))
     beta = g["cfg"]["beta"]
-    seen = set()
-    k = 0
-    for t in g["teams"]:
-        for p in t:
-            k += 1
-            while (p[0], p[1]) in seen:
-                p[0] = p[0] - k * beta * 2.0 ** -10 if p[0] > 0 else p[0] + k * beta * 2.0 ** -10
-            seen.add((p[0], p[1]))
+    if distinct:
+        # all players pairwise different in value: a value in the wrong slot is visible in the numbers
+        seen = set()
+        k = 0
+        for t in g["teams"]:
+            for p in t:
+                k += 1
+                while (p[0], p[1]) in seen:
+                    p[0] = p[0] - k * beta * 2.0 ** -10 if p[0] > 0 else p[0] + k * beta * 2.0 ** -10
+                seen.add((p[0], p[1]))
+    # else: value-identical players / teams (new players, copies): only ids, names and object identity tell them apart
+    g["meta"]["distinct_values"] = distinct
     g["presorted_omit"] = draw(st.booleans())
     return g
 
